@@ -148,6 +148,7 @@ class Ctx:
         self.cov = {}
         self.notes = []
         self.cands = {}  # clause -> list of (case, expected, observed)
+        self.alts = {}
         self.cand_count = {}
         self.findings = Findings()
         self.rng = np.random.default_rng(seed)
@@ -187,11 +188,15 @@ class Ctx:
         self.exhaustive = False
 
     # ---- violations -----------------------------------------------------------------------
-    def violation(self, clause, case, expected=None, observed=None):
+    def violation(self, clause, case, expected=None, observed=None, alt_case=None):
+        """alt_case: a larger-context version of the case (e.g. the event together with a batch neighbour), tried when
+        the minimal case does not reproduce on its own because the violation depends on batch composition."""
         self.cand_count[clause] = self.cand_count.get(clause, 0) + 1
         lst = self.cands.setdefault(clause, [])
         if len(lst) < 400:
             lst.append((case, expected, observed))
+            if alt_case is not None:
+                self.alts[id(case)] = alt_case
 
     # ---- finish ---------------------------------------------------------------------------
     def finish(self):
@@ -213,6 +218,9 @@ class Ctx:
             jcase = jsonable(case)
             try:
                 r1 = self.module.replay(unjson(json.loads(json.dumps(jcase))))
+                if clause not in {c for c, _, _ in r1} and id(case) in self.alts:
+                    jcase = jsonable(self.alts[id(case)])
+                    r1 = self.module.replay(unjson(json.loads(json.dumps(jcase))))
                 r2 = self.module.replay(unjson(json.loads(json.dumps(jcase))))
             except Exception as ex:  # the replay itself failed
                 harness_errors.append(f"replay of clause {clause} raised {type(ex).__name__}: {ex}")
